@@ -203,6 +203,7 @@ def _h_c15(rec):
 for _k in ("train_val_split", "get_batches", "fit_rows"):
     HANDLERS[_k] = _h_c15
 HANDLERS["c05"] = _grid_handler("rt_c05", "C05 scipy.stats comparison")
+HANDLERS["c06"] = _grid_handler("rt_c06", "C06 batching")
 HANDLERS["losses"] = _grid_handler("rt_c17", "C17 loss re-evaluation")
 HANDLERS["transformed"] = _grid_handler("rt_c03", "C03 change-of-variables")
 HANDLERS["merge_transforms"] = _grid_handler("rt_c03", "C03 change-of-variables")
